@@ -14,7 +14,7 @@ VERUS_UNITS = {
     'U-CHK-V': dict(module='contracts.verus.yaml_chunker', min_verified=10, timeout=600,
                     props=['C03', 'C05', 'C04', 'C02', 'C12']),
     'U-ENC-V': dict(module='contracts.verus.yaml_encoding', min_verified=15, timeout=600,
-                    props=['C07', 'C02', 'C04', 'C05', 'C12']),
+                    props=['C07', 'C02', 'C04', 'C05', 'C12', 'C01']),
     'U-CAP-V': dict(module='contracts.verus.input_capture', min_verified=18, timeout=600,
                     props=['C09', 'C02', 'C04', 'C05', 'C12']),
 }
@@ -114,12 +114,12 @@ HARNESSES = [
     H('U-YML', 'yaml', 'yaml_slice_fast_path_modular', 'contract', ['C07', 'C02'], bounds='every slice of length 0..=4; Encoding::detect replaced by its verified contract (stub_verified)',
       fns=['yaml::transcode'], timeout=900,
       assumes=['serde_yaml::Deserializer::from_str precondition-contract', 'transcode_reader stubbed']),
-    H('U-ENC-16', 'encoding', 'utf16_next_step', 'complete', ['C07', 'C17', 'C04', 'C05'], bounds='every pending/next unit pair, both endiannesses, 0..=7 remaining bytes; any decoder state',
+    H('U-ENC-16', 'encoding', 'utf16_next_step', 'complete', ['C07', 'C17', 'C04', 'C05', 'C01'], bounds='every pending/next unit pair, both endiannesses, 0..=7 remaining bytes; any decoder state',
       fns=['yaml::encoding::Utf16Decoder::next', 'yaml::encoding::Utf16Decoder::next_u16', 'yaml::encoding::Endianness::decode_u16'], timeout=600, min_covers=7,
       assumes=['Utf16Decoder.pos < 2^64-16 bytes']),
     H('U-ENC-16', 'encoding', 'utf16_source_error_propagates', 'bounded-size', ['C12', 'C07'], bounds='stream <= 6 B, failure at every offset',
       fns=['yaml::encoding::Utf16Decoder::next', 'yaml::encoding::Utf16Decoder::next_u16'], timeout=300, min_covers=1, allow_unreachable_asserts=True),
-    H('U-ENC-32', 'encoding', 'utf32_next_step', 'complete', ['C07', 'C17', 'C04', 'C05'], bounds='every 32-bit unit value, both endiannesses, 0..=7 remaining bytes',
+    H('U-ENC-32', 'encoding', 'utf32_next_step', 'complete', ['C07', 'C17', 'C04', 'C05', 'C01'], bounds='every 32-bit unit value, both endiannesses, 0..=7 remaining bytes',
       fns=['yaml::encoding::Utf32Decoder::next', 'yaml::encoding::Endianness::decode_u32'], timeout=300, min_covers=4,
       assumes=['Utf32Decoder.pos < 2^64-16 bytes']),
     H('U-ENC-32', 'encoding', 'utf32_source_error_propagates', 'bounded-size', ['C12', 'C07'], bounds='stream <= 6 B, failure at every offset',
@@ -151,7 +151,7 @@ HARNESSES = [
       fns=['msgpack::transcode (slice loop)'], timeout=600, min_covers=1,
       assumes=['rmp_serde::Deserializer::set_max_depth stubbed by a probe that records its argument', 'next_value_size replaced by its proved contract']),
     # ---- U-PRS / U-CHK ----
-    H('U-PRS', 'parser', 'read_handler_contract', 'bounded-size', ['C17', 'C12', 'C04'], bounds='libyaml buffer <= 4 B (+2 canary bytes); reader may lie about any length or fail',
+    H('U-PRS', 'parser', 'read_handler_contract', 'bounded-size', ['C17', 'C12', 'C04', 'C02'], bounds='libyaml buffer <= 4 B (+2 canary bytes); reader may lie about any length or fail',
       fns=['yaml::chunker::parser::Parser::read_handler'], timeout=600, min_covers=4),
     H('U-PRS', 'parser', 'read_handler_contract_big', 'bounded-size', ['C17', 'C12'], tier='thorough', bounds='libyaml buffer <= 8 B (+2 canary bytes)',
       fns=['yaml::chunker::parser::Parser::read_handler'], timeout=1200, min_covers=4),
@@ -302,7 +302,8 @@ PROPERTIES = {
         explanation='xt owns the middle link parser -> serde events -> transcoder -> serializer calls. Contract: the serializer receives exactly the event '
                     'sequence the deserializer produced. Scalars (17 visit methods of the streaming transcoder, 21 visit forms of transcode::Value): same type, '
                     'bit-identical value, for every value (complete). Sequences/maps: serialize_seq/map(size_hint), then elements / key-value alternation in '
-                    'deserializer order, then end(), compared event by event on the fly (bounded mock depth).',
+                    'deserializer order, then end(), compared event by event on the fly (bounded mock depth; depth induction machine-checked by tx_depth_induction_step). '
+                    'Text of UTF-16/32 YAML reaches the parser code point for code point: decoder step contracts (complete) and the Verus re-encoder contract (U-ENC-V).',
         assumptions=['every parser and writer crate is faithful (serde_json, serde_yaml, toml, rmp-serde: assumed)',
                      'JSON float parsing without serde_json float_roundtrip is known NOT to be exact (one-ULP loss on ~10% of 17-digit floats): xt contains no float-parsing code, so no contract on xt code can express it',
                      'TOML table reordering and preserve_order are a dependency feature'],
